@@ -136,29 +136,44 @@ def render_sources(prog, module="helper"):
     return "".join(t_parts), "".join(h_parts)
 
 
+LAYOUTS = ("flat", "deep", "collide", "special_target", "special_deep", "special_tail")
+
+
 class Project:
-    """A project on disk. layout 'flat': cwd/target.py + cwd/helper.py.
-    layout 'deep' (C16): fake $HOME; cwd = $HOME/work/proj (project root: has pyproject.toml);
-    helper in the package path pkgx/la/lb/lc/ld/helper.py under cwd (7 path parts: -T truncates);
-    target outside the project root at $HOME/src/da/db/dc/dd/target.py, passed as an absolute path
-    (-H collapses, -T truncates)."""
+    """A project on disk (fake $HOME; `root` = project root = the directory holding pyproject.toml;
+    `cwd` = where rattr is started, also sys.path[0] for its module search).
+
+    flat            cwd = root; target.py and helper.py in it (C15).
+    deep            cwd = root = $HOME/work/proj; helper in the package pkgx/la/lb/lc/ld (6 parts:
+                    -T truncates); target outside the root at $HOME/src/da/db/dc/dd/target.py,
+                    passed as an absolute path (-H collapses, -T truncates).
+    collide         cwd = root; target app/current/core/models/base/util.py (relative argument) and
+                    import app/legacy/core/models/base/util.py: both are more than five parts deep
+                    and share the first and the last three parts, so -T renders them identically.
+    special_target  cwd = root; target `skeleton/{service}/target.py` (relative argument), helper
+                    plain: format-significant characters in the target's rendered path only.
+    special_deep    root = $HOME/work, cwd = root/gen/{service}/v1/api/http: target and import both
+                    render as gen/{service}/v1/api/http/<file> and -T elides the brace component.
+    special_tail    root = $HOME/work, cwd = root/sk/{}/x y/é%s/{a}{b}: braces, `{}`, `%s`, a space
+                    and a non-ASCII letter in components that -T keeps.
+    """
 
     def __init__(self, base: Path, prog, layout="flat", strict_toml=False):
         self.base = base
         self.prog = prog
         self.layout = layout
+        module = "helper"
         if layout == "flat":
             self.home = base / "home"
-            self.cwd = base / "proj"
+            self.cwd = self.root = base / "proj"
             self.cwd.mkdir(parents=True)
             self.home.mkdir(parents=True)
-            module = "helper"
             self.target_arg = "target.py"
             self.target_path = self.cwd / "target.py"
             self.helper_path = self.cwd / "helper.py"
-        else:
+        elif layout == "deep":
             self.home = base / "home" / "user"
-            self.cwd = self.home / "work" / "proj"
+            self.cwd = self.root = self.home / "work" / "proj"
             pk = self.cwd / "pkgx" / "la" / "lb" / "lc" / "ld"
             pk.mkdir(parents=True)
             d = self.cwd / "pkgx"
@@ -171,15 +186,49 @@ class Project:
             self.target_path = tdir / "target.py"
             self.target_arg = str(self.target_path)
             self.helper_path = pk / "helper.py"
+        elif layout == "collide":
+            self.home = base / "home" / "user"
+            self.cwd = self.root = self.home / "work" / "proj"
+            for version in ("current", "legacy"):
+                d = self.cwd / "app"
+                d.mkdir(parents=True, exist_ok=True)
+                (d / "__init__.py").write_text("")
+                for part in (version, "core", "models", "base"):
+                    d = d / part
+                    d.mkdir()
+                    (d / "__init__.py").write_text("")
+            module = "app.legacy.core.models.base.util"
+            self.target_arg = "app/current/core/models/base/util.py"
+            self.target_path = self.cwd / self.target_arg
+            self.helper_path = self.cwd / "app" / "legacy" / "core" / "models" / "base" / "util.py"
+        elif layout == "special_target":
+            self.home = base / "home" / "user"
+            self.cwd = self.root = self.home / "work" / "proj"
+            (self.cwd / "skeleton" / "{service}").mkdir(parents=True)
+            self.target_arg = "skeleton/{service}/target.py"
+            self.target_path = self.cwd / self.target_arg
+            self.helper_path = self.cwd / "helper.py"
+        elif layout in ("special_deep", "special_tail"):
+            self.home = base / "home" / "user"
+            self.root = self.home / "work"
+            sub = ("gen", "{service}", "v1", "api", "http") if layout == "special_deep" else \
+                ("sk", "{}", "x y", "\u00e9%s", "{a}{b}")
+            self.cwd = self.root.joinpath(*sub)
+            self.cwd.mkdir(parents=True)
+            self.target_path = self.cwd / "target.py"
+            self.target_arg = str(self.target_path)
+            self.helper_path = self.cwd / "helper.py"
+        else:
+            raise ValueError(layout)
         t, h = render_sources(prog, module)
         self.target_path.write_text(t)
         self.helper_path.write_text(h)
         toml = "[tool.rattr]\n" + ("strict = true\n" if strict_toml else "")
-        (self.cwd / "pyproject.toml").write_text(toml)
+        (self.root / "pyproject.toml").write_text(toml)
         self.strict_toml = strict_toml
 
     def set_strict_toml(self, on: bool):
-        (self.cwd / "pyproject.toml").write_text("[tool.rattr]\n" + ("strict = true\n" if on else ""))
+        (self.root / "pyproject.toml").write_text("[tool.rattr]\n" + ("strict = true\n" if on else ""))
         self.strict_toml = on
 
 
